@@ -250,21 +250,39 @@ Lemma pow2_64 : 2 ^ 64 = 18446744073709551616. Proof. reflexivity. Qed.
 Lemma pow2_63 : 2 ^ (64 - 1) = 9223372036854775808. Proof. reflexivity. Qed.
 Lemma zpow2_63 : (2 ^ 63 = 9223372036854775808)%Z. Proof. reflexivity. Qed.
 
-Theorem int_literal_exact (l : int_lit) :
-  int_lit_ok l = true ->
-  leading_zero_dec l = false ->
-  impl_int (render_int l) = Ok (spec_int l).
+(* the event a value produces: spec_int on the value alone *)
+Definition int_event (neg : bool) (v : N) : lit_result :=
+  let z := if neg then (- Z.of_N v)%Z else Z.of_N v in
+  if (z =? 0)%Z && neg then RNegInt 0
+  else if ((- 2 ^ 63 <=? z) && (z <? 2 ^ 63))%Z then RInt z
+  else RBigInt z.
+
+(* ExitValueInt after the text has been cleaned *)
+Definition int_of_str (str : bytes) : outcome lit_result :=
+  match str with
+  | [] => Err
+  | _ =>
+    let neg := is_neg_text str in
+    match go_parse_int str 0 64 with
+    | Some v => if (v =? 0)%Z && neg then Ok (RNegInt 0) else Ok (RInt v)
+    | None => match go_bigint0 str with
+              | Some z => Ok (RBigInt z)
+              | None => Err
+              end
+    end
+  end.
+
+Lemma impl_int_eq text : impl_int text = int_of_str (strip_dec_lead0 (strip_us text)).
+Proof. reflexivity. Qed.
+
+Lemma int_of_str_core neg b up d0 body :
+  digit_ok b d0 = true -> forallb (digit_ok b) body = true ->
+  (b = B10 -> d0 = 48 -> body = []) ->
+  int_of_str (sign_chars neg ++ prefix_chars b up ++ d0 :: body)
+  = Ok (int_event neg (chars_val (ibase_n b) (d0 :: body) 0)).
 Proof.
-  destruct l as [neg b up [d0 rest]]. unfold int_lit_ok, leading_zero_dec, render_int, spec_int, int_value, int_mag, dseq_val.
-  cbn [i_neg i_base i_upper i_digits d_first d_rest]. intros Hok Hlz.
-  pose proof Hok as Hok'. unfold dseq_ok, dseq_chars in Hok'. cbn [d_first d_rest forallb] in Hok'.
-  apply andb_true_iff in Hok' as [Hd0 Hrest].
-  unfold impl_int. rewrite strip_us_sign_prefix, (strip_us_dseq b) by exact Hok.
-  unfold dseq_chars. cbn [d_first d_rest].
-  set (body := map snd rest) in *.
+  intros Hd0 Hrest Hz. unfold int_of_str, int_event.
   set (v := chars_val (ibase_n b) (d0 :: body) 0).
-  assert (Hz : b = B10 -> d0 = 48 -> body = []).
-  { intros -> ->. cbn in Hlz. subst body. destruct rest; [reflexivity | discriminate]. }
   assert (Hv : go_digits (ibase_n b) true (d0 :: body) 0 = Some v).
   { apply go_digits_chars. cbn [forallb]. rewrite Hd0. exact Hrest. }
   assert (Hus : has_us (d0 :: body) = false).
@@ -276,12 +294,103 @@ Proof.
   rewrite is_neg_text_render by exact Hd0.
   rewrite (go_parse_int0_gen neg b up d0 body v 64 Hd0 Hz Hv) by (rewrite Hus; discriminate).
   rewrite (go_bigint0_clean neg b up d0 body v Hd0 Hz Hv Hus).
-  unfold int_range_result. rewrite pow2_64, pow2_63, zpow2_63.
+  unfold int_range_result. rewrite pow2_64, pow2_63, zpow2_63. cbv zeta.
   destruct neg;
     repeat match goal with
            | |- context [if ?c then _ else _] => destruct c eqn:?
            end; try reflexivity; exfalso; lia.
 Qed.
+
+(* stripDecimalLeadingZeros on clean digits *)
+Lemma drop0x_true_nonus c r : is_us c = false -> drop0x true (c :: r) = drop0x false (c :: r).
+Proof. intro H. cbn [drop0x andb]. rewrite H. reflexivity. Qed.
+
+Lemma drop0x_false_cons c r :
+  drop0x false (c :: r) = if (c =? 48) && digit_after_us r then drop0x true r else c :: r.
+Proof. reflexivity. Qed.
+
+Lemma dec_not_us c : is_dec c = true -> is_us c = false.
+Proof. unfold is_dec, is_us, c_us. lia. Qed.
+
+Lemma drop0_dec chars :
+  chars <> [] -> forallb is_dec chars = true ->
+  exists d0 body, drop0 chars = d0 :: body /\ forallb is_dec (d0 :: body) = true /\
+                  (d0 = 48 -> body = []) /\
+                  forall acc, chars_val 10 (d0 :: body) acc = chars_val 10 chars acc \/ acc <> 0.
+Proof.
+  unfold drop0.
+  induction chars as [|c r IH]; intros Hne Hd; [congruence|].
+  destruct r as [|d r'].
+  - exists c, []. rewrite drop0x_false_cons. cbn [digit_after_us]. rewrite andb_false_r. repeat split; auto.
+  - cbn [forallb] in Hd. apply andb_true_iff in Hd as [Hc Hr]. pose proof Hr as Hr'. cbn [forallb] in Hr'.
+    apply andb_true_iff in Hr' as [Hdd _].
+    rewrite drop0x_false_cons. cbn [digit_after_us]. rewrite (dec_not_us d Hdd), Hdd, andb_true_r. destruct (c =? 48) eqn:E.
+    + rewrite drop0x_true_nonus by (apply dec_not_us, Hdd).
+      destruct (IH ltac:(discriminate) Hr) as [d0 [body [E1 [E2 [E3 E4]]]]].
+      exists d0, body. repeat split; auto. intro acc.
+      destruct (N.eq_dec acc 0) as [->|Hn]; [left|right; exact Hn].
+      assert (c = 48) by lia. subst c. destruct (E4 0) as [E5|E5]; [|congruence].
+      rewrite E5. cbn [chars_val]. reflexivity.
+    + exists c, (d :: r'). repeat split; auto.
+      * cbn [forallb]. rewrite Hc. exact Hr.
+      * intro H48. lia.
+Qed.
+
+Lemma drop0_not_dec z p r : is_dec p = false -> is_us p = false -> drop0 (z :: p :: r) = z :: p :: r.
+Proof. intros H Hu. unfold drop0. rewrite drop0x_false_cons. cbn [digit_after_us]. rewrite Hu, H, andb_false_r. reflexivity. Qed.
+
+Lemma strip_dec_lead0_sign neg s :
+  match s with c :: _ => c <> c_minus /\ c <> c_plus | [] => True end ->
+  strip_dec_lead0 (sign_chars neg ++ s) = sign_chars neg ++ drop0 s.
+Proof.
+  intro H. destruct neg; cbn [sign_chars app].
+  - reflexivity.
+  - unfold strip_dec_lead0. destruct s as [|c r]; [reflexivity|].
+    destruct H as [H1 H2]. replace ((c =? c_minus) || (c =? c_plus)) with false by lia. reflexivity.
+Qed.
+
+Lemma dseq_val_chars b d : dseq_val b d = chars_val (ibase_n b) (dseq_chars d) 0.
+Proof. reflexivity. Qed.
+
+(* Every integer literal of the grammar, leading zeros included (fix 601f9e0) *)
+Theorem int_literal_exact_all (l : int_lit) :
+  int_lit_ok l = true ->
+  impl_int (render_int l) = Ok (spec_int l).
+Proof.
+  destruct l as [neg b up [d0 rest]]. unfold int_lit_ok, render_int.
+  cbn [i_neg i_base i_upper i_digits]. intros Hok.
+  pose proof Hok as Hok'. unfold dseq_ok, dseq_chars in Hok'. cbn [d_first d_rest forallb] in Hok'.
+  apply andb_true_iff in Hok' as [Hd0 Hrest].
+  rewrite impl_int_eq, strip_us_sign_prefix, (strip_us_dseq b) by exact Hok.
+  unfold dseq_chars. cbn [d_first d_rest]. set (body := map snd rest) in *.
+  assert (Hspec : spec_int {| i_neg := neg; i_base := b; i_upper := up; i_digits := {| d_first := d0; d_rest := rest |} |}
+                  = int_event neg (chars_val (ibase_n b) (d0 :: body) 0)) by reflexivity.
+  rewrite Hspec.
+  pose proof (digit_ok_range _ _ Hd0) as R0.
+  destruct (ibase_eq_dec b B10) as [E10|N10].
+  - subst b. cbn [prefix_chars app].
+    rewrite strip_dec_lead0_sign by (unfold c_minus, c_plus; lia).
+    destruct (drop0_dec (d0 :: body) ltac:(discriminate)) as [e0 [eb [E1 [E2 [E3 E4]]]]].
+    { cbn [forallb]. cbn [digit_ok] in Hd0, Hrest. rewrite Hd0. exact Hrest. }
+    rewrite E1. cbn [forallb] in E2. apply andb_true_iff in E2 as [Ee0 Eeb].
+    change (sign_chars neg ++ e0 :: eb) with (sign_chars neg ++ prefix_chars B10 up ++ e0 :: eb).
+    rewrite int_of_str_core; try assumption; [| intros _; exact E3].
+    destruct (E4 0) as [E5|E5]; [|congruence]. cbn [ibase_n]. rewrite E5. reflexivity.
+  - assert (Hp : exists p, prefix_chars b up = [48; p] /\ is_dec p = false /\ is_us p = false).
+    { destruct b, up; try congruence; eexists; repeat split; reflexivity. }
+    destruct Hp as [p [Ep [Hp Hpu]]].
+    rewrite strip_dec_lead0_sign by (rewrite Ep; cbn [app]; unfold c_minus, c_plus; lia).
+    rewrite Ep. cbn [app]. rewrite drop0_not_dec by assumption.
+    change (48 :: p :: d0 :: body) with ([48; p] ++ d0 :: body). rewrite <- Ep.
+    apply int_of_str_core; try assumption. intro; congruence.
+Qed.
+
+(* the statement as it was before the fix (kept for the developments that use it) *)
+Theorem int_literal_exact (l : int_lit) :
+  int_lit_ok l = true ->
+  leading_zero_dec l = false ->
+  impl_int (render_int l) = Ok (spec_int l).
+Proof. intros Hok _. apply int_literal_exact_all, Hok. Qed.
 
 (* ------------------------------------------------------------------ *)
 (* array elements: integers                                             *)
@@ -404,12 +513,12 @@ Proof.
            end; try reflexivity; exfalso; lia.
 Qed.
 
-Theorem int_elem_implicit_exact (bits : N) (l : int_lit) :
+Lemma parse_int_elem_implicit (bits : N) (l : int_lit) :
   elem_bits bits ->
   int_lit_ok l = true ->
   leading_zero_dec l = false ->
   single_us (i_digits l) = true ->
-  impl_int_elem 0 bits (render_int l) = spec_int_elem bits l.
+  parse_int_elem 0 bits (render_int l) = spec_int_elem bits l.
 Proof.
   destruct l as [neg b up d]. unfold int_lit_ok, leading_zero_dec, render_int, spec_int_elem, int_value, int_mag.
   cbn [i_neg i_base i_upper i_digits]. intros Hb Hok Hlz Hsu.
@@ -419,7 +528,7 @@ Proof.
   unfold dseq_ok, dseq_chars in Hok. cbn [d_first d_rest forallb] in Hok. apply andb_true_iff in Hok as [Hd0 Hrest].
   assert (Hz : b = B10 -> d0 = 48 -> rest_render rest = []).
   { intros -> ->. cbn in Hlz. destruct rest; [reflexivity | discriminate]. }
-  unfold impl_int_elem.
+  unfold parse_int_elem.
   rewrite (go_parse_int0_gen neg b up d0 (rest_render rest) _ bits Hd0 Hz Hv (fun _ => Hu)).
   apply int_range_spec, Hb.
 Qed.
@@ -469,7 +578,8 @@ Proof.
   destruct l as [neg b up d]. unfold int_lit_ok, render_int_noprefix, spec_int_elem, int_value, int_mag.
   cbn [i_neg i_base i_upper i_digits]. intros Hbits Hb Hok Hnu.
   pose proof (go_parse_uint_explicit b d bits Hb Hok Hnu) as HU.
-  unfold impl_int_elem.
+  unfold impl_int_elem, elem_text. replace (ibase_n b =? 0) with false by (destruct b; reflexivity).
+  unfold parse_int_elem.
   assert (HI : go_parse_int (sign_chars neg ++ render_dseq d) (ibase_n b) bits = int_range_result neg (dseq_val b d) bits).
   { unfold go_parse_int, int_range_result. destruct neg; cbn [sign_chars app].
     - change (c_minus =? c_plus) with false. change (c_minus =? c_minus) with true. cbv iota.
@@ -487,12 +597,12 @@ Qed.
 (* array elements: unsigned integers                                    *)
 (* ------------------------------------------------------------------ *)
 
-Theorem uint_elem_implicit_exact (bits : N) (l : int_lit) :
+Lemma parse_uint_elem_implicit (bits : N) (l : int_lit) :
   i_neg l = false ->
   int_lit_ok l = true ->
   leading_zero_dec l = false ->
   single_us (i_digits l) = true ->
-  impl_uint_elem 0 bits (render_int l) = spec_uint_elem bits l.
+  parse_uint_elem 0 bits (render_int l) = spec_uint_elem bits l.
 Proof.
   destruct l as [neg b up d]. unfold int_lit_ok, leading_zero_dec, render_int, spec_uint_elem, int_mag.
   cbn [i_neg i_base i_upper i_digits]. intros -> Hok Hlz Hsu. cbn [sign_chars app].
@@ -502,7 +612,7 @@ Proof.
   unfold dseq_ok, dseq_chars in Hok. cbn [d_first d_rest forallb] in Hok. apply andb_true_iff in Hok as [Hd0 Hrest].
   assert (Hz : b = B10 -> d0 = 48 -> rest_render rest = []).
   { intros -> ->. cbn in Hlz. destruct rest; [reflexivity | discriminate]. }
-  unfold impl_uint_elem.
+  unfold parse_uint_elem.
   rewrite (go_parse_uint0_gen b up d0 (rest_render rest) _ bits Hd0 Hz Hv (fun _ => Hu)).
   destruct (_ <? 2 ^ bits); reflexivity.
 Qed.
@@ -516,9 +626,138 @@ Theorem uint_elem_explicit_exact (bits : N) (l : int_lit) :
 Proof.
   destruct l as [neg b up d]. unfold int_lit_ok, render_int_noprefix, spec_uint_elem, int_mag.
   cbn [i_neg i_base i_upper i_digits]. intros -> Hb Hok Hnu. cbn [sign_chars app].
-  unfold impl_uint_elem. rewrite (go_parse_uint_explicit b d bits Hb Hok Hnu).
+  unfold impl_uint_elem, elem_text. replace (ibase_n b =? 0) with false by (destruct b; reflexivity).
+  unfold parse_uint_elem. rewrite (go_parse_uint_explicit b d bits Hb Hok Hnu).
   destruct (_ <? 2 ^ bits); reflexivity.
 Qed.
+
+(* ---- implicit-base arrays after the fix: the text goes through stripDecimalLeadingZeros ---- *)
+
+Lemma digit_after_us_repeat k c t : is_us c = false -> digit_after_us (repeat c_us k ++ c :: t) = is_dec c.
+Proof. intro H. induction k as [|k IH]; cbn [repeat app digit_after_us]; [rewrite H; reflexivity | exact IH]. Qed.
+
+Lemma drop0x_skip k c t : is_us c = false -> drop0x true (repeat c_us k ++ c :: t) = drop0x false (c :: t).
+Proof.
+  intro H. induction k as [|k IH]; cbn [repeat app]; [apply drop0x_true_nonus, H|].
+  cbn [drop0x andb]. change (is_us c_us) with true. cbv iota. exact IH.
+Qed.
+
+Lemma drop0_render first rest :
+  is_dec first = true -> forallb is_dec (map snd rest) = true ->
+  drop0 (first :: rest_render rest) = render_dseq (strip0 first rest).
+Proof.
+  unfold drop0. revert first; induction rest as [|[k c] r IH]; intros first Hf Hr.
+  - cbn [rest_render flat_map strip0]. rewrite drop0x_false_cons. cbn [digit_after_us]. rewrite andb_false_r. reflexivity.
+  - cbn [map snd forallb] in Hr. apply andb_true_iff in Hr as [Hc Hr].
+    cbn [rest_render flat_map fst snd strip0]. fold (rest_render r). rewrite <- app_assoc. cbn [app].
+    rewrite drop0x_false_cons. rewrite (digit_after_us_repeat k c _ (dec_not_us c Hc)), Hc, andb_true_r.
+    destruct (first =? 48).
+    + rewrite (drop0x_skip k c _ (dec_not_us c Hc)). apply IH; assumption.
+    + rewrite render_dseq_eq. cbn [d_first d_rest rest_render flat_map fst snd]. fold (rest_render r).
+      rewrite <- app_assoc. reflexivity.
+Qed.
+
+Lemma strip0_facts first rest :
+  is_dec first = true -> forallb is_dec (map snd rest) = true ->
+  dseq_ok B10 (strip0 first rest) = true /\
+  dseq_val B10 (strip0 first rest) = dseq_val B10 {| d_first := first; d_rest := rest |} /\
+  (Nat.leb (max_us {| d_first := first; d_rest := rest |}) 1 = true -> Nat.leb (max_us (strip0 first rest)) 1 = true) /\
+  (d_first (strip0 first rest) = 48 -> d_rest (strip0 first rest) = []).
+Proof.
+  revert first; induction rest as [|[k c] r IH]; intros first Hf Hr.
+  - cbn [strip0]. unfold dseq_ok, dseq_chars. cbn [d_first d_rest map forallb digit_ok]. rewrite Hf. auto.
+  - pose proof Hr as Hr0. cbn [map snd forallb] in Hr. apply andb_true_iff in Hr as [Hc Hr].
+    assert (Hid : dseq_ok B10 {| d_first := first; d_rest := (k, c) :: r |} = true).
+    { unfold dseq_ok, dseq_chars. cbn [d_first d_rest forallb digit_ok]. rewrite Hf. exact Hr0. }
+    cbn [strip0].
+    destruct (first =? 48) eqn:E.
+    + destruct (IH c Hc Hr) as [I1 [I2 [I3 I4]]]. split; [exact I1|]. split; [|split; [|exact I4]].
+      * rewrite I2. assert (first = 48) by lia. subst first. reflexivity.
+      * intro H. apply I3. unfold max_us in *. cbn [d_rest fold_right fst] in *.
+        apply Nat.leb_le in H. apply Nat.leb_le. lia.
+    + repeat split; auto. cbn [d_first]. intro. lia.
+Qed.
+
+Lemma strip_render_int l :
+  int_lit_ok l = true ->
+  strip_dec_lead0 (render_int l) = render_int (strip0_lit l) /\
+  int_lit_ok (strip0_lit l) = true /\ int_mag (strip0_lit l) = int_mag l /\ i_neg (strip0_lit l) = i_neg l /\
+  (single_us (i_digits l) = true -> single_us (i_digits (strip0_lit l)) = true) /\
+  leading_zero_dec (strip0_lit l) = false.
+Proof.
+  destruct l as [neg b up [d0 rest]]. unfold int_lit_ok, render_int, strip0_lit, int_mag, single_us, leading_zero_dec.
+  cbn [i_neg i_base i_upper i_digits d_first d_rest]. intro Hok.
+  pose proof Hok as Hok'. unfold dseq_ok, dseq_chars in Hok'. cbn [d_first d_rest forallb] in Hok'.
+  apply andb_true_iff in Hok' as [Hd0 Hrest].
+  pose proof (digit_ok_range _ _ Hd0) as R0.
+  destruct (ibase_eq_dec b B10) as [E10|N10].
+  - subst b. cbn [prefix_chars app i_neg i_base i_upper i_digits]. cbn [digit_ok] in Hd0, Hrest.
+    rewrite render_dseq_eq. cbn [d_first d_rest].
+    rewrite strip_dec_lead0_sign by (unfold c_minus, c_plus; lia).
+    rewrite (drop0_render d0 rest Hd0 Hrest).
+    destruct (strip0_facts d0 rest Hd0 Hrest) as [F1 [F2 [F3 F4]]].
+    repeat split; auto.
+    destruct (strip0 d0 rest) as [e0 er]. cbn [d_first d_rest] in *.
+    destruct (e0 =? 48) eqn:E48; [|reflexivity]. rewrite F4 by lia. reflexivity.
+  - assert (Hp : exists p, prefix_chars b up = [48; p] /\ is_dec p = false /\ is_us p = false).
+    { destruct b, up; try congruence; eexists; repeat split; reflexivity. }
+    destruct Hp as [p [Ep [Hp Hpu]]].
+    replace (match b with B10 => _ | _ => _ end)
+      with {| i_neg := neg; i_base := b; i_upper := up; i_digits := {| d_first := d0; d_rest := rest |} |}
+      by (destruct b; try congruence; reflexivity).
+    cbn [i_neg i_base i_upper i_digits].
+    rewrite strip_dec_lead0_sign by (rewrite Ep; cbn [app]; unfold c_minus, c_plus; lia).
+    rewrite Ep. cbn [app]. rewrite render_dseq_eq. cbn [d_first d_rest app]. rewrite drop0_not_dec by assumption.
+    repeat split; auto. destruct b; try congruence; reflexivity.
+Qed.
+
+Lemma spec_int_elem_strip bits l :
+  int_lit_ok l = true -> spec_int_elem bits (strip0_lit l) = spec_int_elem bits l.
+Proof.
+  intro Hok. destruct (strip_render_int l Hok) as [_ [_ [Hm [Hn _]]]].
+  unfold spec_int_elem, int_value. rewrite Hm, Hn. reflexivity.
+Qed.
+
+(* Elements of @iNN[...] arrays: every spelling whose separators behind the first
+   significant digit are single (leading zeros, with any separators behind
+   them, are fine since 601f9e0 / 6b24587) *)
+Theorem int_elem_implicit_exact_all (bits : N) (l : int_lit) :
+  elem_bits bits ->
+  int_lit_ok l = true ->
+  single_us_elem l = true ->
+  impl_int_elem 0 bits (render_int l) = spec_int_elem bits l.
+Proof.
+  intros Hb Hok Hsu. destruct (strip_render_int l Hok) as [E [Hok' [_ [_ [_ Hlz]]]]].
+  unfold impl_int_elem, elem_text. change (0 =? 0) with true. cbv iota. rewrite E.
+  rewrite (parse_int_elem_implicit bits (strip0_lit l) Hb Hok' Hlz Hsu).
+  apply spec_int_elem_strip, Hok.
+Qed.
+
+Theorem uint_elem_implicit_exact_all (bits : N) (l : int_lit) :
+  i_neg l = false ->
+  int_lit_ok l = true ->
+  single_us_elem l = true ->
+  impl_uint_elem 0 bits (render_int l) = spec_uint_elem bits l.
+Proof.
+  intros Hn Hok Hsu. destruct (strip_render_int l Hok) as [E [Hok' [Hm [Hn' [_ Hlz]]]]].
+  unfold impl_uint_elem, elem_text. change (0 =? 0) with true. cbv iota. rewrite E.
+  rewrite (parse_uint_elem_implicit bits (strip0_lit l) ltac:(congruence) Hok' Hlz Hsu).
+  unfold spec_uint_elem. rewrite Hm. reflexivity.
+Qed.
+
+Lemma single_us_elem_of l : int_lit_ok l = true -> single_us (i_digits l) = true -> single_us_elem l = true.
+Proof. intros Hok H. destruct (strip_render_int l Hok) as [_ [_ [_ [_ [Hs _]]]]]. exact (Hs H). Qed.
+
+(* the statements as they were before the fixes (kept for the developments that use them) *)
+Theorem int_elem_implicit_exact (bits : N) (l : int_lit) :
+  elem_bits bits -> int_lit_ok l = true -> leading_zero_dec l = false -> single_us (i_digits l) = true ->
+  impl_int_elem 0 bits (render_int l) = spec_int_elem bits l.
+Proof. intros Hb Hok _ Hsu. apply int_elem_implicit_exact_all; auto using single_us_elem_of. Qed.
+
+Theorem uint_elem_implicit_exact (bits : N) (l : int_lit) :
+  i_neg l = false -> int_lit_ok l = true -> leading_zero_dec l = false -> single_us (i_digits l) = true ->
+  impl_uint_elem 0 bits (render_int l) = spec_uint_elem bits l.
+Proof. intros Hn Hok _ Hsu. apply uint_elem_implicit_exact_all; auto using single_us_elem_of. Qed.
 
 (* ------------------------------------------------------------------ *)
 (* escapes and code points                                              *)
@@ -545,27 +784,36 @@ Qed.
 Lemma is_hex_digit_ok c : is_hex c = digit_ok B16 c.
 Proof. reflexivity. Qed.
 
-Theorem codepoint_exact (hx : bytes) :
-  hx <> [] -> forallb is_hex hx = true -> hex_val hx < 2 ^ 32 ->
-  impl_codepoint hx = Ok (utf8_enc (hex_val hx)).
+(* parseHexCodepoint on any non-empty run of hex digits (fix 9d7e9c8): the
+   UTF-8 bytes of a Unicode scalar value, rejected otherwise *)
+Theorem codepoint_all (hx : bytes) :
+  hx <> [] -> forallb is_hex hx = true ->
+  impl_codepoint hx = if valid_scalar (hex_val hx) then Ok (utf8_enc (hex_val hx)) else Err.
 Proof.
-  intros Hne Hh Hlt. unfold impl_codepoint, go_parse_uint, hex_val in *.
-  destruct hx as [|c r]; [congruence|].
-  change (16 =? 0) with false. cbv iota. cbn [andb].
-  change 16 with (ibase_n B16). rewrite (go_digits_chars B16 false (c :: r) 0 Hh).
-  change (ibase_n B16) with 16. cbv beta iota.
-  replace (chars_val 16 (c :: r) 0 <? 2 ^ 32) with true by lia. reflexivity.
-Qed.
-
-Theorem codepoint_too_big (hx : bytes) :
-  hx <> [] -> forallb is_hex hx = true -> 2 ^ 32 <= hex_val hx -> impl_codepoint hx = Err.
-Proof.
-  intros Hne Hh Hlt. unfold impl_codepoint, go_parse_uint, hex_val in *.
+  intros Hne Hh. unfold impl_codepoint, go_parse_uint, hex_val in *.
   destruct hx as [|c r]; [congruence|].
   change (16 =? 0) with false. cbv iota. cbn [andb].
   change 16 with (ibase_n B16). rewrite (go_digits_chars B16 false (c :: r) 0 Hh).
   change (ibase_n B16) with 16 in *. cbv beta iota.
-  replace (chars_val 16 (c :: r) 0 <? 2 ^ 32) with false by lia. reflexivity.
+  destruct (chars_val 16 (c :: r) 0 <? 2 ^ 32) eqn:E; [reflexivity|].
+  replace (valid_scalar (chars_val 16 (c :: r) 0)) with false; [reflexivity|].
+  unfold valid_scalar. change (2 ^ 32) with 4294967296 in E. lia.
+Qed.
+
+Theorem codepoint_exact (hx : bytes) :
+  hx <> [] -> forallb is_hex hx = true -> valid_scalar (hex_val hx) = true ->
+  impl_codepoint hx = Ok (utf8_enc (hex_val hx)).
+Proof. intros Hne Hh Hv. rewrite (codepoint_all hx Hne Hh), Hv. reflexivity. Qed.
+
+Theorem codepoint_invalid (hx : bytes) :
+  hx <> [] -> forallb is_hex hx = true -> valid_scalar (hex_val hx) = false -> impl_codepoint hx = Err.
+Proof. intros Hne Hh Hv. rewrite (codepoint_all hx Hne Hh), Hv. reflexivity. Qed.
+
+Theorem codepoint_too_big (hx : bytes) :
+  hx <> [] -> forallb is_hex hx = true -> 2 ^ 32 <= hex_val hx -> impl_codepoint hx = Err.
+Proof.
+  intros Hne Hh Hlt. apply codepoint_invalid; try assumption.
+  unfold valid_scalar. change (2 ^ 32) with 4294967296 in Hlt. lia.
 Qed.
 
 (* ------------------------------------------------------------------ *)
@@ -1516,7 +1764,7 @@ Proof.
 Qed.
 
 Lemma lex_code f idx hx r acc :
-  hx <> [] -> forallb is_hex hx = true -> hex_val hx < 2 ^ 32 ->
+  hx <> [] -> forallb is_hex hx = true -> valid_scalar (hex_val hx) = true ->
   lex_string (S f) idx (92 :: 91 :: hx ++ 93 :: r) acc = lex_string f idx r (acc ++ utf8_enc (hex_val hx)).
 Proof.
   intros Hne Hh Hlt. cbn [lex_string]. change (92 =? 34) with false. change (92 =? 92) with true. cbv iota.
@@ -1645,7 +1893,7 @@ Proof.
       * apply IH; try assumption; lia.
       * destruct hx; [discriminate | discriminate].
       * exact Hh.
-      * unfold valid_scalar in Hvs. change (2 ^ 32) with 4294967296. lia.
+      * exact Hvs.
     + apply andb_true_iff in Hi as [Hnl Hws].
       cbn [app]. rewrite <- app_assoc. rewrite lex_cont; try assumption.
       * cbn [app]. apply IH; try assumption; lia.
@@ -1882,14 +2130,10 @@ Definition full_codepoint : Prop :=
 Definition full_string : Prop :=
   forall items, items_ok items = true -> impl_string (render_body items) = Ok (body_value items).
 
-Lemma full_int_refuted : exists l, int_lit_ok l = true /\ impl_int (render_int l) <> Ok (spec_int l).
-Proof. exists (dec_int false [48; 49; 48]). split; [reflexivity|]. vm_compute. discriminate. Qed.
-Lemma full_int_refuted_rejects : exists l, int_lit_ok l = true /\ impl_int (render_int l) = Err.
-Proof. exists (dec_int false [48; 56]). split; reflexivity. Qed.
+(* 010, 08: repaired by 601f9e0 *)
+Theorem full_int_holds : full_int.
+Proof. exact int_literal_exact_all. Qed.
 
-Lemma full_int_elem_refuted_leading_zero :
-  exists l, int_lit_ok l = true /\ impl_int_elem 0 8 (render_int l) <> spec_int_elem 8 l.
-Proof. exists (dec_int false [48; 49; 48]). split; [reflexivity|]. vm_compute. discriminate. Qed.
 Lemma full_int_elem_refuted_separators :
   exists l, int_lit_ok l = true /\ leading_zero_dec l = false /\ impl_int_elem 0 8 (render_int l) <> spec_int_elem 8 l.
 Proof.
@@ -1903,9 +2147,15 @@ Proof.
   exists {| i_neg := false; i_base := B16; i_upper := false; i_digits := {| d_first := 102; d_rest := [(1%nat, 102)] |} |}.
   split; [discriminate|]. split; [reflexivity|]. vm_compute. discriminate.
 Qed.
+(* @u8[1__0] is rejected *)
 Lemma full_uint_elem_refuted :
-  exists l, i_neg l = false /\ int_lit_ok l = true /\ impl_uint_elem 0 8 (render_int l) <> spec_uint_elem 8 l.
-Proof. exists (dec_int false [48; 56]). split; [reflexivity|]. split; [reflexivity|]. vm_compute. discriminate. Qed.
+  exists l, i_neg l = false /\ int_lit_ok l = true /\
+            impl_uint_elem 0 8 (render_int l) <> spec_uint_elem 8 l.
+Proof.
+  exists {| i_neg := false; i_base := B10; i_upper := false;
+            i_digits := {| d_first := 49; d_rest := [(2%nat, 48)] |} |}.
+  split; [reflexivity|]. split; [reflexivity|]. vm_compute. discriminate.
+Qed.
 Lemma full_uint_elem_explicit_refuted :
   exists l, i_neg l = false /\ i_base l <> B10 /\ int_lit_ok l = true /\
             impl_uint_elem (ibase_n (i_base l)) 8 (render_int_noprefix l) <> spec_uint_elem 8 l.
@@ -1957,11 +2207,9 @@ Proof.
   split; [reflexivity|]. split; [split; reflexivity|]. split; vm_compute; reflexivity.
 Qed.
 
-(* \[d800] is accepted and becomes U+FFFD *)
-Lemma full_codepoint_refuted :
-  exists hx, hx <> [] /\ forallb is_hex hx = true /\ valid_scalar (hex_val hx) = false /\
-             impl_codepoint hx = Ok [239; 191; 189].
-Proof. exists [100; 56; 48; 48]. split; [discriminate|]. repeat split; reflexivity. Qed.
+(* \[d800], \[110000]: repaired by 9d7e9c8 *)
+Theorem full_codepoint_holds : full_codepoint.
+Proof. exact codepoint_all. Qed.
 
 (* "\.ab ab" : empty verbatim sequence with a two-character sentinel yields "b" *)
 Lemma full_string_refuted_empty_verbatim :
@@ -1989,4 +2237,7 @@ Definition full_all : Prop :=
   full_float_elem /\ full_decimal /\ full_codepoint /\ full_string.
 
 Lemma full_all_refuted : ~ full_all.
-Proof. intros [H _]. destruct full_int_refuted as [l [Hok Hne]]. apply Hne, H, Hok. Qed.
+Proof.
+  intros [_ [_ [_ [_ [_ [_ [_ [_ H]]]]]]]]. destruct full_string_refuted_nonascii as [items [Hok He]].
+  rewrite (H items Hok) in He. discriminate.
+Qed.
